@@ -13,6 +13,9 @@ StartOpts == {[dl |-> d, stop |-> KillNow, nb |-> TRUE, rin |-> 0, rout |-> 0, r
                term |-> 0, self |-> TRUE, prog |-> "/bin/c"] : d \in DlOpts, re \in {0, R_PIPE}}
              \cup {[dl |-> 0, stop |-> KillNow, nb |-> TRUE, rin |-> 0, rout |-> 0, rerr |-> 0, input |-> -1,
                     term |-> 0, self |-> TRUE, prog |-> "/bin/c", fork |-> TRUE]}
+\* a start that fails (with a deadline given) must leave nothing behind: the handle is started again without a deadline
+FailOpts == {[dl |-> 1, stop |-> KillNow, nb |-> TRUE, rin |-> 0, rout |-> 0, rerr |-> 0, input |-> -1,
+              term |-> 0, self |-> TRUE, prog |-> "/nonexistent"]}
 
 Srcs1 == {<<<<h, m>>>> : h \in {0, 1, 2}, m \in Masks}
 Srcs2 == {<<<<h, m>>, <<g, k>>>> : h \in {0, 1, 2}, g \in {0, 1, 2}, m \in Masks, k \in {EV_OUT + EV_EXIT}}
